@@ -637,7 +637,7 @@ func skipInit(path string) bool {
 	case "runtime", "syscall", "os", "reflect", "unsafe", "sync", "sync/atomic", "net", "os/exec", "os/signal",
 		"internal/poll", "internal/cpu", "crypto/tls", "crypto/x509", "log", "testing", "flag", "net/http/httptrace",
 		"internal/godebug", "internal/reflectlite", "math/rand", "math/rand/v2", "crypto/rand", "os/user", "io/ioutil",
-		"compress/flate", "compress/gzip", "math/big", "encoding/json", "encoding/binary", "text/template", "html/template",
+		"compress/flate", "compress/gzip", "math/big", "encoding/json", "text/template", "html/template",
 		"runtime/debug", "runtime/trace", "runtime/pprof", "internal/testlog", "internal/bisect", "hash/crc32", "regexp", "regexp/syntax",
 		"golang.org/x/sys/unix", "internal/abi", "internal/bytealg", "internal/runtime/atomic", "log/slog", "log/internal",
 		"encoding/asn1", "crypto/ecdsa", "crypto/elliptic", "crypto/rsa", "crypto/ed25519", "crypto/internal/nistec",
